@@ -27,6 +27,7 @@ UNSAFE = ("created", "paging_out", "paged_in")
 LIVE_PHASES = ("writing", "readable", "out_pending", "in_pending", "limbo")      # ledger: size promised out of shared memory
 CHUNK = 4096                     # disk.py `chunk_size` (checked against the source by `source_constants`)
 _ORIG_STALE = None               # (STALE_CREATE, STALE_READ) of the source, captured at first use
+_ORIG_GET_CAPACITY = None        # dataset.get_capacity of the source, captured before it is stubbed
 
 
 def _b36(n):
@@ -103,11 +104,21 @@ class ManualPool:
         pass
 
 
+class _Detach(BaseException):
+    """raised by the scripted server socket when its inbox is empty: leaves LocalServer.start AND server.entrypoint (which
+    catches Exception only) without running the exit handler -- the server stays as it is, to be re-entered for the next datagram"""
+
+
 class _Sock:
     def __init__(self):
-        self.inbox, self.sent = [], []
+        self.inbox, self.sent, self.bound = [], [], None
+
+    def bind(self, addr):
+        self.bound = addr
 
     def recvfrom(self, n):
+        if not self.inbox:
+            raise _Detach()
         return self.inbox.pop(0)[:n], "client"
 
     def sendto(self, b, addr):
@@ -174,6 +185,7 @@ class Real:
         # what findmnt would report for /dev/shm; Manager.__init__ must trim a larger configured capacity to it and use it
         # when none is configured (`avail` None: plenty)
         self.avail = avail if avail is not None else 1 << 40
+        _capture_get_capacity(dsm)
         dsm.get_capacity = lambda: self.avail
         self.clock = _Clock()
         self.uuid = _Uuid()
@@ -192,7 +204,18 @@ class Real:
                     os.unlink("/dev/shm/" + n)
                 except OSError:
                     pass
-        self.m = dsm.Manager(self.prefix, capacity=cap)
+        # the store is brought up the way the executor does it: the REAL server.entrypoint(port, capacity, logging_config,
+        # prefix) -> LocalServer.__init__ (socket, Manager(prefix, capacity), signal handlers) -> LocalServer.start, over a
+        # scripted datagram socket; `capacity` is what Executor.__init__ passes: the configured bytes, None when not configured
+        self.server = server
+        self.configured = cap if cap else None
+        self.boot_error = None
+        self.srv = self._boot(self.configured)
+        if self.srv is None:
+            self.srv = object.__new__(server.LocalServer)
+            self.srv.sock = _Sock()
+            self.srv.manager = dsm.Manager(self.prefix, capacity=cap)
+        self.m = self.srv.manager
         # the capacity the property speaks of: the configured one, never more than what /dev/shm has
         self.cap = min(cap, self.avail) if cap else self.avail
         self.jobs = _Jobs()
@@ -201,12 +224,36 @@ class Real:
             setattr(self.m.disk, name, ManualPool(self.jobs, kind))
         self.exited = False
         self.via_server = via_server
-        self.srv = object.__new__(server.LocalServer)
-        self.srv.sock = _Sock()
-        self.srv.manager = self.m
         os.environ[api.client_port_envvar] = "1"
         self.name2key = {}
         self.last_error = ""
+
+    def _boot(self, capacity, port=1):
+        """server.entrypoint up to the first receive on an empty scripted socket; returns the LocalServer it built (found in
+        the frames of the _Detach that left it), None + boot_error when the entrypoint did not get that far"""
+        import types
+        server = self.server
+        sock = _Sock()
+        server.socket = types.SimpleNamespace(AF_INET=2, SOCK_DGRAM=2, socket=lambda *a, **k: sock)
+        server.signal = types.SimpleNamespace(SIGINT=2, SIGTERM=15, signal=lambda signum, handler: None)
+        srv = None
+        try:
+            server.entrypoint(port, capacity, None, self.prefix)
+            self.boot_error = "entrypoint returned"
+        except _Detach as e:
+            tb = e.__traceback__
+            while tb is not None:
+                x = tb.tb_frame.f_locals.get("self")
+                if isinstance(x, server.LocalServer):
+                    srv = x
+                tb = tb.tb_next
+            if srv is None or getattr(srv, "sock", None) is not sock or not hasattr(srv, "manager"):
+                self.boot_error, srv = "no server", None
+            elif sock.bound != ("0.0.0.0", port):
+                self.boot_error = "bound to %r" % (sock.bound,)
+        except Exception as e:
+            self.boot_error = "exception:" + _exc(e)
+        return srv
 
     # ---------------------------------------------------------------- requests
     def rpc_raw(self, raw):
@@ -364,6 +411,27 @@ class Real:
             mon.register_callback(tool, mon.events.INSTRUCTION, None)
             mon.free_tool_id(tool)
 
+    def with_call_window(self, code, fn, in_window, tool=3):
+        """run fn() in this thread; the first time the function with code object `code` is entered, call in_window() once.
+        Returns (fn's result, was the window reached)."""
+        import sys
+        mon = sys.monitoring
+        fired = []
+
+        def on_start(c, off):
+            if c is code and not fired:
+                fired.append(True)
+                in_window()
+        mon.use_tool_id(tool, "ekw-shm")
+        try:
+            mon.register_callback(tool, mon.events.PY_START, on_start)
+            mon.set_local_events(tool, code, mon.events.PY_START)
+            return fn(), bool(fired)
+        finally:
+            mon.set_local_events(tool, code, 0)
+            mon.register_callback(tool, mon.events.PY_START, None)
+            mon.free_tool_id(tool)
+
     # ---------------------------------------------------------------- observation
     def _dir(self, d, pref):
         out = []
@@ -498,8 +566,11 @@ class Runner:
         self.real = Real(cap, via_server, stale, avail)
         self.real.jobs.on_submit = self._on_submit
         cap = self.cap = self.real.cap
-        self.lines = [{"op": "init", "cap": cap, "staleCreate": self.real.stale_create, "staleRead": self.real.stale_read}]
-        self.outs = [{"out": "init", "st": model_state(self.real.observe())}]
+        # the model computes the capacity from what was configured and what /dev/shm offers (configCapacity); `cap` of the
+        # line is the harness' own reading of the property text and is used by the oracles only
+        self.lines = [{"op": "init", "cap": cap, "configured": self.real.configured, "avail": self.real.avail,
+                       "staleCreate": self.real.stale_create, "staleRead": self.real.stale_read}]
+        self.outs = [{"out": "init" if self.real.boot_error is None else "boot:" + self.real.boot_error, "st": model_state(self.real.observe())}]
         # ---- the clients' / oracle's own ledger (never reads Dataset.status)
         self.grants = []       # allocations: {gid,k,size,shmid,tok,buf,closed,closed_ok,phase,...}
         self.readers = []      # {k,rdid,buf,t0,gid,bytes,stale}
@@ -509,6 +580,7 @@ class Runner:
         self.disc = 0          # reported free - (capacity - resident total of the ledger), as of the previous op
         self.disc_status = 0   # the same with the resident total the store's own status fields give
         self.over = {}         # inequality oracles currently violated (reported at the rising edge)
+        self.seg_owner = {}    # key -> gid of the allocation whose WRITER created the segment now in /dev/shm under the key's name
         self.unsafe_purge = False    # statistics only
         self.cur = {}          # context of the op being executed (for the signatures)
         self.wire = []         # (request, answer) datagrams of the real client layer during the current op
@@ -517,6 +589,10 @@ class Runner:
         self.stats = {}
         self.t = 1
         self.rdc = itertools.count()
+        # the property's clauses hold from the first instant: the empty store reports the configured capacity as free
+        self.cur = {"op": "init", "k": ""}
+        self._oracle_state(self.real.observe())
+        self.cur = {}
 
     def _newrd(self, prefix):
         """a fresh reader-id candidate of 8 characters (Manager.get keeps the first 8 of str(uuid4()))"""
@@ -545,11 +621,23 @@ class Runner:
             return {"unsafe_purge": True, "orphan_key_reused": bool(job.get("key_reused"))}
         return {"unsafe_purge": False}
 
-    def _nonconform(self):
-        """a writer of this history created its segment with a size other than the granted one, or only after the store had
-        given the allocation up (assumption of the property broken by the harness on purpose, class (a) of SafeRun;
-        client.allocate creates the segment in the same call): the sizes of what /dev/shm holds are not the store's doing"""
-        return {"nonconform_writer": True} if any(g.get("wsize", g["size"]) != g["size"] or g.get("late_write") for g in self.grants) else {}
+    def _conform_segtot(self, obs):
+        """total size of the segments in /dev/shm with the doing of NON-CONFORMING writers taken out, segment by segment: a
+        segment created by a writer with more bytes than granted counts with the granted size, one created only after the store
+        had given the allocation up (stale writer) does not count (assumption (a) of the property's model, broken by the
+        harness on purpose in 5% of the histories; client.allocate creates the segment in the same call with the granted
+        size). Only an excess that disappears with this correction is put down to the writer; any other excess in the same
+        history is reported."""
+        tot = 0
+        for k, n, _ in obs["segs"]:
+            gid = self.seg_owner.get(k)
+            g = self.grants[gid] if gid is not None else None
+            if g is not None and g.get("late_write"):
+                continue
+            if g is not None and g.get("wsize", g["size"]) != g["size"]:
+                n = min(n, g["size"])
+            tot += n
+        return tot
 
     @property
     def fails(self):
@@ -678,15 +766,26 @@ class Runner:
                        f"went from {d0} to {d1} in op {cur.get('op')} {cur.get('k', '')}",
                        op=cur.get("op"), basis=basis, **mech)
         self.disc, self.disc_status = disc, disc_status
+        live_names = {x[0] for x in obs["segs"]}
+        for k in [k for k in self.seg_owner if k not in live_names]:
+            self.seg_owner.pop(k)            # the segment a writer created is gone: a later one under the name is the store's
         slack = max(0, disc)      # every unit of discrepancy has been reported where it arose; the bounds below are relative to it
-        checks = (("segments-exceed-capacity", segtot > cap + slack, f"segments of the run total {segtot} bytes > capacity {cap}"),
-                  ("resident-exceeds-capacity", resident > cap + slack, f"datasets resident in shared memory total {resident} > capacity {cap}"),
-                  ("segments-exceed-accounted", segtot > cap - free + slack, f"segments total {segtot} > capacity {cap} - free {free}"))
-        for kind, bad, what in checks:
-            if bad and not self.over.get(kind):
+        segtot_c = self._conform_segtot(obs)
+        checks = (("segments-exceed-capacity", segtot, cap, f"segments of the run total {segtot} bytes > capacity {cap}"),
+                  ("resident-exceeds-capacity", resident, cap, f"datasets resident in shared memory total {resident} > capacity {cap}"),
+                  ("segments-exceed-accounted", segtot, cap - free, f"segments total {segtot} > capacity {cap} - free {free}"))
+        for kind, val, bound, what in checks:
+            bad = val > bound + slack
+            if val > bound and not bad and not self.over.get(kind + "/slack"):
+                self._stat("oracle:%s:within-a-discrepancy-already-reported" % kind)
+            self.over[kind + "/slack"] = val > bound and not bad
+            extra = {}
+            if bad and kind.startswith("segments") and not segtot_c > bound + slack:
+                extra = {"nonconform_writer": True}      # the whole excess is the non-conforming writers' doing
+            if bad and self.over.get(kind) != (True, bool(extra)):
                 self._flag(kind, what + f" after op {cur.get('op')} {cur.get('k', '')}", op=cur.get("op"),
-                           **self._mech(cur.get("job"), cur.get("alloc")), **(self._nonconform() if kind.startswith("segments") else {}))
-            self.over[kind] = bad
+                           **self._mech(cur.get("job"), cur.get("alloc")), **extra)
+            self.over[kind] = (True, bool(extra)) if bad else None
         # C09: a dataset held by a young reader is neither paged out nor unlinked
         for r in self.readers:
             if r["bytes"] is None or r.get("flagged"):
@@ -709,7 +808,8 @@ class Runner:
     def apply(self, op):
         kind = op["op"]
         if getattr(self, "deadlocked", False):
-            return None          # the store no longer answers (see below): nothing more can be observed in this history
+            self._stat("ops-not-run-after-a-request-that-was-never-answered")
+            return None          # the store no longer answers (see below, reported as request-never-answered): nothing more can be observed in this history
         if "t" in op:
             self.t = max(self.t, op["t"])
         self.real.clock.t = self.t
@@ -722,7 +822,9 @@ class Runner:
         def _on_alarm(*a):
             raise _Blocked()
         old = signal.signal(signal.SIGALRM, _on_alarm)
-        signal.alarm(OP_DEADLINE_S)
+        # composite ops (a client call with its sleeps, the 'everybody finishes' scenario) consist of dozens of requests and
+        # disk-job steps, each followed by a scan of /dev/shm: on a loaded machine they take seconds without anything blocking
+        signal.alarm(OP_DEADLINE_S * (20 if kind == "retry" else 8 if kind in ("c_alloc", "c_get", "drainJobs") else 1))
         try:
             return getattr(self, "_op_" + kind)(op)
         except _Blocked:
@@ -738,19 +840,36 @@ class Runner:
             self.client_ctx = None
 
     # ---- add
-    def _do_add(self, k, size, deser, c=None, raw=None, race=None):
-        """one AllocateRequest; `race` = (jid): run the callback of that job in a second thread inside the free_space window"""
-        self.cur = {"op": "add" if race is None else "race-add", "k": k}
+    def _do_add(self, k, size, deser, c=None, raw=None, race=None, race_at="free_space"):
+        """one AllocateRequest; `race` = (jid): run the callback of that job in a second thread inside the free_space window
+        (race_at `iter`: while page_out_at_least is iterating over Manager.datasets, at its first is_pageoutable call)"""
+        self.cur = {"op": "add" if race is None else "race-add" if race_at != "iter" else "race-iter", "k": k}
         pre_free = self.real.m.free_space
         live = self.live_alloc(k)
         raced = False
         try:
-            if race is not None:
+            if race is not None and race_at == "iter":
+                import threading
+                ths = []
+
+                def window():
+                    t = threading.Thread(target=self.real.job_cb, args=(race,), daemon=True)
+                    t.start()
+                    t.join(OP_DEADLINE_S)
+                    ths.append(t)
+                (out, shmid), raced = self.real.with_call_window(self.real.dsm.Dataset.is_pageoutable.__code__,
+                                                                 lambda: self.real.add(k, size, deser, raw), window)
+                if any(t.is_alive() for t in ths):
+                    raise _Blocked()
+                self._stat("race:iteration-window-%s" % ("reached" if raced else "not-reached"))
+            elif race is not None:
                 (out, shmid), raced = self._raced(self.real.dsm.Manager.add, race, lambda: self.real.add(k, size, deser, raw))
             else:
                 out, shmid = self.real.add(k, size, deser, raw)
         except Exception as e:
             out, shmid = "exception:" + _exc(e), ""
+            if race is not None and race_at == "iter":
+                raced = bool(ths)       # the handler died after the window: the callback has run all the same
         if out == "granted":
             under = None
             for jm in self.jobmeta.values():
@@ -778,6 +897,13 @@ class Runner:
         if c is not None:
             self._stat("requests_by_client_%d" % c)
         line = {"op": "add", "k": k, "size": size, "deser": deser, "t": self.t}
+        if raced and race_at == "iter":
+            # the handler had computed the amount to evict before the callback ran, and the dataset of a failed page-in is no
+            # eviction candidate: as a sequence, `add; cb`
+            self._emit(line, out, observe=False)
+            self.cur = {"op": "race-iter", "k": k, "job": self.jobmeta.get(race)}
+            self._after_cb(race, "done")
+            return out
         if raced:
             # the callback ran to its end (or up to the lock) before the handler stored the dataset: as a sequence, `cb; add`
             self._after_cb(race, "done", observe=False)
@@ -786,7 +912,19 @@ class Runner:
         return out
 
     def _op_add(self, op):
-        return self._do_add(op["k"], op["size"], "d" + op["k"], op.get("c"))
+        raw = None
+        if op.get("wire"):
+            # the request as the client sends it: the datagram api.ser(AllocateRequest(...)) decoded by the server's api.deser,
+            # whatever the history's mode (the 8-byte size field at its boundaries)
+            api = self.real.api
+            try:
+                raw = api.ser(api.AllocateRequest(key=op["k"], l=op["size"], deser_fun="d" + op["k"]))
+            except Exception as e:
+                self._emit({"op": "bad-add"}, "exception:ser:" + _exc(e))
+                return None
+            self._stat("add:through-the-wire-encoding")
+            self._stat("add:boundary-size:" + boundary_label(op["size"], self.cap))
+        return self._do_add(op["k"], op["size"], "d" + op["k"], op.get("c"), raw=raw)
 
     # ---- the writer's segment
     def _op_cwrite(self, op):
@@ -811,6 +949,8 @@ class Runner:
         g["tok"] = tok
         g["wsize"] = size
         g["wrote_at"] = self.nops
+        if out == "ok":
+            self.seg_owner[g["k"]] = g["gid"]
         if size != g["size"]:
             self._stat("cwrite:size-differs-from-grant")
         if out == "ok" and g["phase"] != "writing":
@@ -1090,9 +1230,10 @@ class Runner:
         self._after_cb(jid, out)
         return out
 
-    def _raced(self, func, jid, fn):
+    def _raced(self, func, jid, fn, attr="free_space"):
         """fn() (a request handled by the server thread = this thread) with the callback of disk job `jid` run by a REAL second
-        thread at the moment the server thread has read Manager.free_space inside `func` and not yet written it back"""
+        thread at the moment the server thread has read Manager.<attr> (free_space, pageout_count) inside `func` and not yet
+        written it back"""
         import threading
         ths = []
 
@@ -1101,12 +1242,12 @@ class Runner:
             t.start()
             t.join(0.05)          # either it ran to completion, or it blocks on the lock the server thread holds
             ths.append(t)
-        res, fired = self.real.with_window(func, "free_space", fn, window)
+        res, fired = self.real.with_window(func, attr, fn, window)
         for t in ths:
             t.join(OP_DEADLINE_S)
             if t.is_alive():
                 raise _Blocked()
-        self._stat("race:window-%s" % ("reached" if fired else "not-reached"))
+        self._stat("race:%swindow-%s" % ("" if attr == "free_space" else attr + "-", "reached" if fired else "not-reached"))
         return res, fired
 
     def _op_race(self, op):
@@ -1118,16 +1259,57 @@ class Runner:
         if op.get("via") == "cb":
             # two callbacks of page-out jobs in two pool threads: the second arrives while the first is between reading and
             # writing free_space (both sites are under pageout_one)
+            # `attr` pageout_count: the same for the counter of the batch (`pageout_count -= 1; if pageout_count == 0:
+            # pageout_all.release()`, success and failure branch): a lost decrement leaves pageout_all held for ever
+            attr = op.get("attr", "free_space")
+            if attr == "pageout_count":
+                outs = [i for i in ids if self.real.jobs.pending[i]["kind"] == "out"]
+                if len(outs) >= 2:
+                    ids = outs        # two page-out jobs of the batch in flight: both callbacks touch the counter
+                    jid = ids[op["idx"] % len(ids)]
             if len(ids) < 2:
                 return None
-            jid2 = ids[(op["idx"] + 1 + op.get("idx2", 0) % (len(ids) - 1)) % len(ids)]
+            jid2 = ids[(ids.index(jid) + 1 + op.get("idx2", 0) % (len(ids) - 1)) % len(ids)]
             func = self.real.jobs.pending[jid]["args"][-1]
             self.cur = {"op": "race-cb", "job": self.jobmeta.get(jid), "k": ""}
-            _, fired = self._raced(func, jid2, lambda: self.real.job_cb(jid))
+            _, fired = self._raced(func, jid2, lambda: self.real.job_cb(jid), attr)
             for j in ((jid, jid2) if fired else (jid,)):
                 self.cur["op"] = "race-cb"
                 self._after_cb(j, "done", observe=(j == (jid2 if fired else jid)))
             return "done"
+        if op.get("via") == "purge":
+            # a PurgeRequest that really releases (dataset in memory, no reader) on the server thread, racing the callback of a
+            # SUCCESSFUL page-out at the STORE_ATTR free_space inside Manager.purge (every site of the update has its own window)
+            ids = [i for i in ids if self.real.jobs.pending[i]["kind"] == "out" and self.real.jobs.pending[i]["io"] is True]
+            k = op["k"]
+            d = self.real.m.datasets.get(k)
+            if not ids or d is None or d.status.name != "in_memory" or d.ongoing_reads:
+                return None
+            jid = ids[op["idx"] % len(ids)]
+            g = self.live_alloc(k)
+            self.cur = {"op": "race-purge", "k": k, "alloc": g}
+            before = self.real.seg_names()
+            try:
+                out, fired = self._raced(self.real.dsm.Manager.purge, jid, lambda: self.real.purge(k))
+            except _Blocked:
+                raise
+            except Exception as e:
+                out, fired = "exception:" + _exc(e), False
+            self._vanished(before, "purge-request")
+            self._stat("race:purge-site-window-%s" % ("reached" if fired else "not-reached"))
+            if fired:
+                self._after_cb(jid, "done", observe=False)
+                self.cur = {"op": "race-purge", "k": k, "alloc": g, "job": self.jobmeta.get(jid)}
+            self._emit({"op": "purge", "k": k}, out)
+            return out
+        if op.get("via") == "iter":
+            # an AllocateRequest that does not fit (page_out_at_least runs) racing the callback of a FAILED page-in job,
+            # which pops its dataset from Manager.datasets in a pool thread
+            ids = [i for i in ids if self.real.jobs.pending[i]["kind"] == "in" and self.real.jobs.pending[i]["io"] is False]
+            if not ids:
+                return None
+            jid = ids[op["idx"] % len(ids)]
+            return self._do_add(op["k"], op["size"], "d" + op["k"], race=jid, race_at="iter")
         if op.get("via") == "get":
             out, _ = self._do_get(op["k"], op["cands"], race=jid)
             return out
@@ -1298,6 +1480,8 @@ class Runner:
                 g["buf"] = buf
             g["tok"] = tok
             g["wsize"] = size
+            if out == "ok":
+                self.seg_owner[k] = g["gid"]
             seg = self.real.seg_bytes(g["shmid"])
             if out == "ok" and seg is not None and len(seg) != size:
                 self._flag("client-protocol", f"client.allocate({k},{size}) created a segment of {len(seg)} bytes")
@@ -1453,6 +1637,20 @@ class Runner:
 
 # =============================================================================== generator
 
+HUGE_SIZES = (2 ** 31 - 1, 2 ** 31, 2 ** 32, 2 ** 63 - 1, 2 ** 63, 2 ** 64 - 1)      # around the signed / unsigned limits of the 8-byte `l` field
+
+
+def boundary_sizes(cap):
+    return (0, 1, max(cap - 1, 0), cap, cap + 1) + HUGE_SIZES
+
+
+def boundary_label(size, cap):
+    for v, n in ((2 ** 31 - 1, "2^31-1"), (2 ** 31, "2^31"), (2 ** 32, "2^32"), (2 ** 63 - 1, "2^63-1"), (2 ** 63, "2^63"), (2 ** 64 - 1, "2^64-1")):
+        if size == v:
+            return n
+    return "0" if size == 0 else "capacity" if size == cap else "capacity+1" if size == cap + 1 else "capacity-1" if size == cap - 1 else "1" if size == 1 else "other"
+
+
 def gen_and_run(rng, cfg):
     """Generate a history adaptively while running it on the real store.
     cfg: cap, nkeys, nclients, nops, via_server, unsafe (allow purge in transitional status), jumps, stale, big, nonconform"""
@@ -1505,6 +1703,8 @@ def gen_and_run(rng, cfg):
                          for _ in range(rng.randint(0, 3))] for _ in range(rng.randint(0, 4))]
             if kind == "add":
                 op = {"op": "add", "c": rng.randrange(cfg.get("nclients", 1)), "k": k, "size": a_size(), "t": t}
+                if rng.random() < 0.12:
+                    op.update(size=rng.choice(boundary_sizes(cap)), wire=True)
             elif kind == "get":
                 if rng.random() < 0.7 and status:
                     k = rng.choice(sorted(status))
@@ -1560,6 +1760,8 @@ def gen_and_run(rng, cfg):
                     op = {"op": "get", "k": "nokey", "t": t, "cands": ["r%07d" % next(rd)]}
             elif kind == "c_alloc":
                 op = {"op": "c_alloc", "k": k, "size": a_size(), "tok": rng.randint(1, 250), "t": t, "env": env_steps()}
+                if rng.random() < 0.1:
+                    op["size"] = rng.choice(boundary_sizes(cap))       # client.allocate always goes through the wire encoding
                 if op["k"] in status or op["size"] > real.m.free_space or rng.random() < 0.3:
                     op["timeout"] = rng.choice(TIMEOUTS)      # the default (60 s = 600 attempts) only where the grant is due at once
             elif kind == "c_get":
@@ -1569,8 +1771,20 @@ def gen_and_run(rng, cfg):
                     op["timeout"] = rng.choice(TIMEOUTS)
             elif kind == "race":
                 ondisk = [x for x in sorted(status) if status[x] == "on_disk"]
-                if len(pend_cb) >= 2 and rng.random() < 0.4:
+                failed_in = [j for j in pend_cb if j["kind"] == "in" and j["io"] is False]
+                if failed_in and rng.random() < 0.7:
+                    free = real.m.free_space
+                    fresh = [x for x in keys if x not in status] or ["z%d" % next(rd)]
+                    op = {"op": "race", "via": "iter", "k": rng.choice(fresh), "size": rng.randint(min(free + 1, cap), cap),
+                          "idx": rng.randrange(4), "t": t}
+                elif any(j["kind"] == "out" and j["io"] is True for j in pend_cb) and rng.random() < 0.3 and \
+                        [x for x in sorted(status) if status[x] == "in_memory" and not real.m.datasets[x].ongoing_reads]:
+                    idle = [x for x in sorted(status) if status[x] == "in_memory" and not real.m.datasets[x].ongoing_reads]
+                    op = {"op": "race", "via": "purge", "k": rng.choice(idle), "idx": rng.randrange(4), "t": t}
+                elif len(pend_cb) >= 2 and rng.random() < 0.5:
                     op = {"op": "race", "via": "cb", "idx": rng.randrange(4), "idx2": rng.randrange(4), "t": t}
+                    if rng.random() < 0.6:
+                        op["attr"] = "pageout_count"
                 elif ondisk and rng.random() < 0.4:
                     op = {"op": "race", "via": "get", "k": rng.choice(ondisk), "cands": ["r%07d" % next(rd)], "idx": rng.randrange(4), "t": t}
                 else:
@@ -1634,13 +1848,68 @@ def gen_and_run(rng, cfg):
             do({"op": "purge", "k": key})
             run._stat("lifecycle:lives-completed")
 
+    def two_batch():
+        """two idle datasets are evicted in ONE batch (pageout_count 2) and the two callbacks meet in two pool threads: the
+        second arrives while the first is between reading and writing pageout_count (or free_space); either job may have failed"""
+        if cap < 2:
+            return
+        s1 = rng.randint(1, cap - 1)
+        s2 = rng.randint(1, cap - s1)
+        for key, size in (("B1", s1), ("B2", s2)):
+            if do({"op": "add", "k": key, "size": size}) != "granted":
+                return
+            do({"op": "cwrite", "k": key, "tok": rng.randint(1, 250)})
+            do({"op": "closeW", "k": key})
+            if rng.random() < 0.3:
+                out = do({"op": "get", "k": key, "cands": ["B%07d" % next(rd)]})
+                if isinstance(out, dict):
+                    do({"op": "closeR", "idx": len(run.readers) - 1})
+        if do({"op": "add", "k": "BP", "size": cap}) != "wait":
+            return
+        for _ in range(2):
+            r = rng.random()
+            do({"op": "io", "idx": 0, "inj": "ok" if r < 0.7 else "fail"})
+        do({"op": "race", "via": "cb", "idx": rng.randrange(2), "idx2": 0, "attr": "pageout_count" if rng.random() < 0.75 else "free_space"})
+        run._stat("family:two-callbacks-of-one-batch")
+
+    def iter_race():
+        """a page-in fails; its callback (which pops the dataset from Manager.datasets) runs in a second thread while the server
+        thread iterates over Manager.datasets for an allocation that does not fit"""
+        if cap < 2:
+            return
+        s1 = rng.randint(1, cap - 1)
+        if do({"op": "add", "k": "I1", "size": s1}) != "granted":
+            return
+        do({"op": "cwrite", "k": "I1", "tok": rng.randint(1, 250)})
+        do({"op": "closeW", "k": "I1"})
+        if do({"op": "add", "k": "I2", "size": cap}) != "wait":
+            return
+        do({"op": "drainJobs"})
+        if do({"op": "add", "k": "I2", "size": cap - s1}) != "granted":
+            return
+        do({"op": "cwrite", "k": "I2", "tok": rng.randint(1, 250)})
+        if rng.random() < 0.7:
+            do({"op": "closeW", "k": "I2"})
+        if do({"op": "get", "k": "I1", "cands": ["I%07d" % next(rd)]}) != "wait":
+            return
+        do({"op": "io", "idx": 0, "inj": rng.choice(["fail", "failLate"])})
+        do({"op": "race", "via": "iter", "k": "I3", "size": rng.randint(1, cap), "idx": 0})
+        run._stat("family:failed-page-in-callback-during-eviction-scan")
+
     try:
+        # every history: allocate requests with the size field at the limits of its 8-byte encoding, as datagrams
+        for size in rng.sample(HUGE_SIZES, 2):
+            do({"op": "add", "c": 0, "k": rng.choice(keys), "size": size, "wire": True})
         if cfg.get("lifecycle"):
             lifecycle()
+        if cfg.get("family") == "two_batch":
+            two_batch()
+        elif cfg.get("family") == "iter_race":
+            iter_race()
         for _ in range(cfg["nops"] if not cfg.get("lifecycle") else cfg["nops"] // 4):
             step()
         if cfg.get("final_retry"):
-            op = {"op": "retry", "k": "final", "size": rng.randint(max(1, cap // 2), cap), "t": max(t, run.t) + 1, "probe": 2,
+            op = {"op": "retry", "k": "final", "size": rng.randint(max(1, cap // 2), cap), "t": max(t, run.t) + 1, "probe": 4,
                   "pick": rng.randrange(6), "client": rng.random() < 0.4}
             ops.append(op)
             run.apply(op)
@@ -1690,7 +1959,7 @@ def shrink(case, sig, budget_s=120):
 # =============================================================================== batches (used by c08.py / c09.py)
 
 C08_KINDS = ("segments-exceed-capacity", "resident-exceeds-capacity", "free-space-mismatch", "segments-exceed-accounted",
-             "granted-early", "granted-over-existing", "oversize-not-refused", "nofit-not-wait")
+             "granted-early", "granted-over-existing", "oversize-not-refused", "nofit-not-wait", "request-never-answered")
 C09_KINDS = ("granted-missing-segment", "content-mismatch", "readable-before-close", "reader-unprotected",
              "delayed-purge-lost", "never-granted", "request-never-answered", "client-protocol")
 
@@ -1711,7 +1980,13 @@ def random_cfg(rng, maxops, maxkeys, profile):
             "nops": rng.randint(5, maxops), "via_server": rng.random() < 0.5, "unsafe": rng.random() < 0.12,
             "nonconform": rng.random() < 0.05, "stale": stale, "lifecycle": rng.random() < 0.08,
             "jumps": rng.random() < (0.45 if profile == "c09" else 0.25),
-            "final_retry": rng.random() < (0.8 if profile == "c09" else 0.4), "profile": profile}
+            "final_retry": rng.random() < (0.8 if profile == "c09" else 0.4), "profile": profile,
+            "family": _family(rng.random())}
+
+
+def _family(r):
+    """scripted openings (the random ops follow): thread-level meetings that random histories reach too rarely"""
+    return "two_batch" if r < 0.10 else "iter_race" if r < 0.17 else None
 
 
 def compare_with_model(ctx, runs, drive="C08"):
@@ -1734,8 +2009,14 @@ def compare_with_model(ctx, runs, drive="C08"):
             mo2 = {"out": mo.get("out")}
             if "st" in o:
                 mo2["st"] = {kk: st.get(kk) for kk in o["st"]}
+            if l.get("op") == "clientEnd":
+                ctx.count("client_calls_compared_as_a_whole" if o["out"] is not None else "client_calls_NOT_compared_as_a_whole")
+                ctx.extra["shm_client_calls"] = ctx.extra.get("shm_client_calls", 0) + 1
             if o["out"] is None and "st" not in o:
-                continue                  # a client call whose sleeps contained more than disk-job steps: not comparable as a whole
+                # a client call whose sleeps contained more than disk-job steps (its requests were compared one by one, the
+                # call as a whole is not); counted, and more than a handful is a broken tie
+                ctx.extra["shm_client_calls_skipped"] = ctx.extra.get("shm_client_calls_skipped", 0) + 1
+                continue
             if mo2 != o:
                 diff = [kk for kk in o.get("st", {}) if mo2.get("st", {}).get(kk) != o["st"][kk]]
                 ctx.disagree("shm-op %d %s (differs: out=%s %s)" % (i, l.get("op"), mo2["out"] != o["out"], diff),
@@ -1743,6 +2024,10 @@ def compare_with_model(ctx, runs, drive="C08"):
                              mo2, o)
                 break
         k += len(run.lines)
+    skipped, calls = ctx.extra.get("shm_client_calls_skipped", 0), ctx.extra.get("shm_client_calls", 0)
+    if skipped > max(3, calls // 50) and not ctx.extra.get("shm_skip_reported"):
+        ctx.extra["shm_skip_reported"] = True
+        ctx.disagree("client calls not compared as a whole", {"skipped": skipped, "client_calls": calls}, "at most max(3, 2%)", skipped)
 
 
 def check_source_constants(ctx):
@@ -1754,6 +2039,152 @@ def check_source_constants(ctx):
         ctx.disagree("source-constants", {"expected": EXPECTED_CONSTANTS}, EXPECTED_CONSTANTS, got)
 
 
+def _capture_get_capacity(dsm):
+    global _ORIG_GET_CAPACITY
+    if _ORIG_GET_CAPACITY is None and getattr(dsm.get_capacity, "__module__", None) == dsm.__name__:
+        _ORIG_GET_CAPACITY = dsm.get_capacity
+
+
+def check_get_capacity(ctx):
+    """what the store takes as 'available in /dev/shm' (the input `avail` of the model): the REAL dataset.get_capacity with
+    subprocess.run replaced: it must ask findmnt for the AVAIL column of /dev/shm IN BYTES and return the number of the
+    second output line; without findmnt (macOS) the documented 128 GiB"""
+    import types
+    import cascade.shm.dataset as dsm
+    _capture_get_capacity(dsm)
+    f = _ORIG_GET_CAPACITY
+    if f is None:
+        ctx.count("get_capacity:not-available-for-probing")
+        return
+    asked = []
+    orig = dsm.subprocess.run
+    try:
+        for out, want in ((b"AVAIL\n12345\n", 12345), (b"      AVAIL\n 67108864\n", 67108864), (None, 128 * 1024 ** 3),
+                          (b"AVAIL\n%d\n" % (n := ctx.rng.randint(1, 1 << 45)), n)):
+            def fake_run(args, **kw):
+                asked.append(list(args))
+                if out is None:
+                    raise FileNotFoundError(args[0])
+                return types.SimpleNamespace(stdout=out, stderr=b"", returncode=0)
+            dsm.subprocess.run = fake_run
+            try:
+                got = f()
+            except Exception as e:
+                got = "exception:" + _exc(e)
+            ctx.count("get_capacity:" + ("no-findmnt" if out is None else "findmnt-two-lines"))
+            if got != want:
+                ctx.disagree("get-capacity", {"findmnt_stdout": None if out is None else out.decode()}, want, got)
+                return
+    finally:
+        dsm.subprocess.run = orig
+    bad = [a for a in asked if not (a[:1] == ["findmnt"] and "-b" in a and "AVAIL" in a and a[-1] == "/dev/shm")]
+    if bad:
+        ctx.disagree("get-capacity-command", {}, ["findmnt", "-b", "-o", "AVAIL", "/dev/shm"], bad[0])
+
+
+def executor_capacity(shm_vol_gb, avail):
+    """How the capacity configured at the executor reaches the store: the REAL cascade.executor.executor.Executor.__init__
+    (Listener, ReliableSender, process context, atexit and the port publication replaced) is asked which process it starts
+    with the shm server's entrypoint as target; that target is then CALLED with exactly those arguments over a scripted
+    socket holding one FreeSpaceRequest and the ShutdownCommand (get_capacity() stubbed to `avail`).
+    Returns (capacity of the Manager it built, the free space the empty store answered)."""
+    import types
+    import cascade.executor.executor as xmod
+    import cascade.shm.api as api
+    import cascade.shm.dataset as dsm
+    import cascade.shm.server as server
+    from cascade.low.core import JobInstance
+    started = []
+
+    class _P:
+        def __init__(self, *a, **k):
+            self.target, self.args, self.kwargs = k.get("target"), tuple(k.get("args", ())), dict(k.get("kwargs", {}))
+            self.pid, self.exitcode = 1, None
+
+        def start(self):
+            started.append(self)
+
+        def is_alive(self):
+            return False
+
+        def join(self, *a):
+            pass
+
+        def kill(self):
+            pass
+
+    class _L:
+        def __init__(self, address):
+            self.address = address
+
+    class _S:
+        def __init__(self, *a):
+            pass
+
+        def add_host(self, *a):
+            pass
+
+    saved = (xmod.Listener, xmod.ReliableSender, xmod.get_context, xmod.atexit, xmod.shm_api)
+    xmod.Listener, xmod.ReliableSender = _L, _S
+    xmod.get_context = lambda kind: types.SimpleNamespace(Process=_P)
+    xmod.atexit = types.SimpleNamespace(register=lambda f: None)
+    xmod.shm_api = types.SimpleNamespace(publish_client_port=lambda p: None)
+    try:
+        xmod.Executor(JobInstance(tasks={}, edges=[]), "ctrl", 1, "h0", 12345, shm_vol_gb)
+    finally:
+        xmod.Listener, xmod.ReliableSender, xmod.get_context, xmod.atexit, xmod.shm_api = saved
+    procs = [p for p in started if p.target is xmod.shm_server]
+    if len(procs) != 1 or xmod.shm_server is not server.entrypoint:
+        return "shm server processes started: %d" % len(procs), None
+    proc = procs[0]
+    sock = _Sock()
+    sock.inbox = [api.ser(api.FreeSpaceRequest()), api.ser(api.ShutdownCommand())]
+    managers = []
+    orig_init = dsm.Manager.__init__
+
+    def spy(self, *a, **k):
+        orig_init(self, *a, **k)
+        managers.append(self)
+        for name in ("readers", "writers"):
+            getattr(self.disk, name).shutdown()
+    server.socket = types.SimpleNamespace(AF_INET=2, SOCK_DGRAM=2, socket=lambda *a, **k: sock)
+    server.signal = types.SimpleNamespace(SIGINT=2, SIGTERM=15, signal=lambda signum, handler: None)
+    old_cap, old_dc = dsm.get_capacity, server.logging.config.dictConfig
+    dsm.get_capacity = lambda: avail
+    server.logging.config.dictConfig = lambda cfg: None      # the executor passes its logging configuration
+    dsm.Manager.__init__ = spy
+    try:
+        proc.target(*proc.args, **proc.kwargs)
+    except _Detach:
+        pass
+    finally:
+        dsm.Manager.__init__ = orig_init
+        dsm.get_capacity, server.logging.config.dictConfig = old_cap, old_dc
+    answer = api.deser(sock.sent[0]).free_space if sock.sent else None
+    return (managers[0].capacity if len(managers) == 1 else "managers built: %d" % len(managers)), answer
+
+
+def check_executor_capacity(ctx):
+    """the executor's shm_vol_gb (GiB; None / 0 = not configured) -> bytes -> server.entrypoint -> Manager.capacity and the answer
+    to a FreeSpaceRequest of the empty store, for values around what /dev/shm offers; expected from the property text:
+    the configured bytes, never more than what is available, all of it when nothing is configured"""
+    G = 1024 ** 3
+    for gb, avail in ((None, 5 * G), (0, 3 * G), (1, 5 * G), (2, 2 * G), (3, 2 * G + 17), (64, 200 * G), (1, G - 1),
+                      (ctx.rng.randint(1, 300), ctx.rng.randint(1, 300 * G))):
+        want = min(gb * G, avail) if gb else avail
+        try:
+            got = executor_capacity(gb, avail)
+        except Exception as e:
+            got = ("exception:" + _exc(e) + ":" + str(e)[:80], None)
+        ctx.count("executor_capacity_path:" + ("not-configured" if not gb else "trimmed" if gb * G > avail else "configured"))
+        if got != (want, want):
+            ctx.disagree("executor-capacity-path", {"shm_vol_gb": gb, "available_bytes": avail}, [want, want], list(got))
+            ctx.violation({"kind": "capacity-not-as-configured", "unsafe_purge": False}, {"executor_probe": True, "shm_vol_gb": gb, "avail": avail},
+                          f"an executor configured with shm_vol_gb={gb} (with {avail} bytes available in /dev/shm) started a store whose "
+                          f"(capacity, free space reported when empty) is {got}, expected {want} bytes")
+            return
+
+
 def run_batch(ctx, kinds, profile, n, maxops, maxkeys, corpus_glob, chunk=300):
     """Corpus cases first, then n random histories (in chunks, one Lean driver process per chunk); oracle
     violations of `kinds` are reported (shrunk), every trace is compared with the model after every op."""
@@ -1761,6 +2192,9 @@ def run_batch(ctx, kinds, profile, n, maxops, maxkeys, corpus_glob, chunk=300):
     import json
     from ekw.core import CORPUS_DIR, load_known, match_known
     check_source_constants(ctx)
+    if "free-space-mismatch" in kinds:
+        check_get_capacity(ctx)
+        check_executor_capacity(ctx)
     known = load_known()
     seen = {}
     todo = n
@@ -1788,6 +2222,10 @@ def run_batch(ctx, kinds, profile, n, maxops, maxkeys, corpus_glob, chunk=300):
             ctx.count("histories_stale_constants_of_source" if cfg["stale"] is None else
                       "histories_stale_create_%s_stale_read" % ("<" if cfg["stale"][0] < cfg["stale"][1] else ">" if cfg["stale"][0] > cfg["stale"][1] else "="))
             blocked += 1 if getattr(run, "deadlocked", False) else 0
+            if getattr(run, "deadlocked", False):
+                ctx.count("histories_cut_short_by_a_request_never_answered")
+            if cfg.get("family"):
+                ctx.count("histories_opening_" + cfg["family"])
             if blocked >= 4:
                 todo = 0            # a store that stops answering: each further history costs a full op deadline and shows the same
                 break
@@ -1835,6 +2273,14 @@ def run_batch(ctx, kinds, profile, n, maxops, maxkeys, corpus_glob, chunk=300):
 
 def replay_print(payload, kinds):
     case = payload["case"]
+    if case.get("executor_probe"):
+        G = 1024 ** 3
+        gb, avail = case["shm_vol_gb"], case["avail"]
+        want = min(gb * G, avail) if gb else avail
+        got = executor_capacity(gb, avail)
+        print(f"Executor(shm_vol_gb={gb}), /dev/shm offers {avail}: Manager.capacity, free space answered = {got}; expected {want}")
+        print("oracle:", "capacity-not-as-configured" if got != (want, want) else None)
+        return 1 if got != (want, want) else 0
     run, left = replay_history(case)
     for l, o in zip(run.lines, run.outs):
         st = o.get("st", {})
